@@ -236,6 +236,10 @@ def sweep(tier, seed, known=(), every_byte_for=()):
     from concurrent.futures import ProcessPoolExecutor
     files = listings()
     nparts = 4
+    if tier != 'quick' and not every_byte_for:
+        # thorough: EVERY byte offset of the listings below 70 kB
+        every_byte_for = tuple(os.path.basename(p) for p in files if os.path.getsize(p) < 70000)
+    nparts = 4 if tier == 'quick' else 16
     jobs = [(p, tier, seed, part, nparts, os.path.basename(p) in every_byte_for) for p in files for part in range(nparts)]
     n, fails = 0, []
     with ProcessPoolExecutor(max_workers=min(16, os.cpu_count() or 4)) as ex:
@@ -254,7 +258,8 @@ def sweep(tier, seed, known=(), every_byte_for=()):
         reps.append(r)
     return {'name': 'truncated-listings-native', 'evaluations': n, 'distinct': n, 'failures': reps[:12], 'exhaustive': False, 'failure_classes': {k: len(v) for k, v in classes.items()},
             'bound': f'{len(files)} shipped listings (tests/eponine/tripoli4/data/*.res*); cuts at every byte of every line holding a scanner keyword + '
-                     f'{200 if tier == "quick" else 2000} seeded random offsets per file + offsets 0, 1, n-1, n; {PER_PARSE_SECONDS} s limit per prefix; editions whose text block differs from the '
+                     f'{200 if tier == "quick" else 2000} seeded random offsets per file + offsets 0, 1, n-1, n'
+                     + (f'; EVERY byte offset of the {len(every_byte_for)} listings below 70 kB' if every_byte_for else '') + f'; {PER_PARSE_SECONDS} s limit per prefix; editions whose text block differs from the '
                      'complete listing are always parsed and compared, identical blocks are re-parsed for a sample; compared: every key of ParseResult.res except run_data and the elapsed_time of '
                      'parallel jobs (printed after the edition)',
             'samples': [{'listing': 'tests/eponine/tripoli4/data/ttsSimplePacket20.d.res.ceav5', 'cut_at_byte': 1234}]}
